@@ -73,3 +73,12 @@ P["C05"] = {
     "rule": "Chains of 1..6 data levels (plus key level), N = 4..32, three schemes, ciphertext sizes 2..4 (products without relinearisation), every (source level, target level) pair incl. upward (must be refused), every API form of mod_switch_to / rescale_to / to-next, each call on its own thread under a 20 s deadline (a call that does not return is a violation). BFV/BGV results are decrypted exactly and compared with the original message (`prog` lines); CKKS results are compared with the source ciphertext: exact phase (drop: equal mod the smaller modulus; rescale: |phase'·D - phase| <= D(1+N+..+N^(size-1)+1)), scale bit pattern = IEEE division chain, and the Lean model recomputes the destination ciphertext bit for bit.",
     "assumptions": ["Lean's Float division is IEEE-754 binary64 division (same as Rust f64) — used only to predict the scale bit pattern"],
 }
+
+P["C07"] = {
+    "lean_modules": ["Heathcliff.Props.C07"],
+    "level": "proof",
+    "runs": lambda tier, seed: [{"seed": seed}] if tier == "quick" else [{"seed": seed * 1000 + i} for i in range(6)],
+    "search": lambda tier, seed: [{"seed": seed * 7919}],
+    "rule": "Ciphertexts reached by random BFV/BGV operation programs (same generator as C02) that are NOT stopped when the budget is exhausted, so zero-budget and low-budget ciphertexts are included; fresh public-key / secret-key encryptions; negations; k-fold sums (k = 2..9) of same-level same-factor ciphertexts. The library's invariant_noise_budget is compared with the Lean model of dot product + compose + infinity norm and with the definition evaluated on the exact big-integer phase.",
+    "assumptions": ["negation / add_many laws are checked with the library's own budgets, which the `budget` lines of the same run tie to the exact definition"],
+}
